@@ -256,7 +256,9 @@ class RuntimeName(Name, Object, Callable):
         if isinstance(self.value, type):
             try:
                 self._instance = RuntimeName('__none__', self.value())
-            except TypeError:
+            except Exception:
+                # not every class can be instantiated without arguments,
+                # e.g. super() raises RuntimeError outside of a method
                 pass
 
         return self._instance
